@@ -81,6 +81,47 @@ pub fn per_version_replay(v: (u8, u8), fill: Fill) -> AbsReplay {
 	a
 }
 
+/// Long games: beyond the parser's initial column capacity (1024 rows), absences at and around
+/// bitmap word boundaries (rows 7/8, 63/64/65, 1023/1024), more than 65,535 items in total.
+pub fn long_replays(quick: bool) -> Vec<AbsReplay> {
+	let mut out = vec![];
+	let versions: Vec<(u8, u8)> = if quick { vec![(1, 0), (2, 2), (3, 16)] } else { vec![(0, 1), (1, 0), (2, 0), (2, 2), (3, 0), (3, 7), (3, 16)] };
+	for v in versions {
+		let regime = spec::regime(v);
+		let ports = vec![pc(0, false), PortCfg { port: 2, ics: true, ptype: 1 }, pc(3, false)];
+		let n = if quick { 300 } else { 1100 };
+		let mut a = base_replay(v, ports.clone(), n);
+		for (i, f) in a.frames.iter_mut().enumerate() {
+			if regime > 0 {
+				// a few rollbacks: every 97th frame repeats the id two rows back
+				f.id = -123 + (i as i32) - ((i / 97) as i32) * 2;
+			}
+			// P3 follower absent on rows around word boundaries and every 7th row
+			if i % 7 == 3 || matches!(i, 7 | 8 | 63 | 64 | 65 | 127 | 128 | 255 | 256 | 1023 | 1024) {
+				f.present[1][1] = false;
+			}
+			// P4 leader absent from row 64 to 130 and from 1020 on
+			if (64..=130).contains(&i) || i >= 1020 {
+				f.present[2][0] = false;
+			}
+			if regime == 2 {
+				f.items = i % 3;
+			}
+		}
+		out.push(a);
+	}
+	if !quick {
+		// more than 65,535 items in one game
+		let mut a = base_replay((3, 16), vec![pc(0, false), pc(1, false)], 110);
+		for f in a.frames.iter_mut() {
+			f.items = 610;
+		}
+		a.metadata = None;
+		out.push(a);
+	}
+	out
+}
+
 // ------------------------------------------------------------------ fixtures
 
 pub struct Fixture {
